@@ -3,8 +3,8 @@
 package proj
 
 import (
-	"encoding/json"
 	"context"
+	"encoding/json"
 	"fmt"
 	"reflect"
 	"runtime/debug"
@@ -28,7 +28,7 @@ type Project struct {
 	New     func() (any, any, any, func() graphql.ExecutableSchema)
 	// NewSchema builds the executable schema over another schema document (Config.Schema)
 	NewSchema func(*ast.Schema) graphql.ExecutableSchema
-	Options map[string]string
+	Options   map[string]string
 }
 
 var all []*Project
